@@ -17,6 +17,7 @@
 -/
 import Babylon.Core.MemView
 import Babylon.Core.Reach
+import Babylon.Counter.Model
 
 namespace Babylon.Counter.View
 open Babylon.Core Babylon.Core.MemView
@@ -443,6 +444,116 @@ theorem decInt_encInt (i : Int) : decInt (encInt i) = i := by
 
 def adderKind : Kind Int Int :=
   { init := 0, step := fun a v => a + v, enc := encInt, dec := decInt, dec_enc := decInt_encInt }
+
+/-! ### two naturals in one message: `2^a * (2 b + 1)` -/
+
+def pairN (a b : Nat) : Nat := 2 ^ a * (2 * b + 1)
+
+/-- strip the factors of two (`fuel` bounds the recursion) -/
+def unpairN : Nat → Nat → Nat × Nat
+  | 0, m => (0, m / 2)
+  | fuel + 1, m => if m % 2 = 0 then ((unpairN fuel (m / 2)).1 + 1, (unpairN fuel (m / 2)).2) else (0, m / 2)
+
+theorem unpairN_pairN (a b : Nat) : ∀ fuel, a ≤ fuel → unpairN fuel (pairN a b) = (a, b) := by
+  induction a with
+  | zero =>
+    intro fuel _
+    have h : pairN 0 b = 2 * b + 1 := by simp [pairN]
+    rw [h]
+    cases fuel with
+    | zero => simp only [unpairN]; congr 1; omega
+    | succ f =>
+      simp only [unpairN]
+      rw [if_neg (by omega)]
+      congr 1; omega
+  | succ a ih =>
+    intro fuel hf
+    have h : pairN (a + 1) b = 2 * pairN a b := by
+      simp only [pairN, Nat.pow_succ]
+      rw [Nat.mul_assoc, Nat.mul_comm 2 (2 * b + 1), ← Nat.mul_assoc, Nat.mul_comm]
+    cases fuel with
+    | zero => omega
+    | succ f =>
+      rw [h]
+      simp only [unpairN]
+      rw [if_pos (by omega)]
+      have h2 : 2 * pairN a b / 2 = pairN a b := by omega
+      rw [h2, ih f (by omega)]
+
+theorem le_pairN (a b : Nat) : a ≤ pairN a b := by
+  have h1 : a < 2 ^ a := Nat.lt_two_pow_self
+  have h2 : 2 ^ a * 1 ≤ 2 ^ a * (2 * b + 1) := Nat.mul_le_mul_left _ (by omega)
+  unfold pairN; omega
+
+def unpair (m : Nat) : Nat × Nat := unpairN m m
+
+theorem unpair_pairN (a b : Nat) : unpair (pairN a b) = (a, b) :=
+  unpairN_pairN a b _ (le_pairN a b)
+
+/-- the summer's cell `{sum, num}` — ONE 16-byte message -/
+def summerKind : Kind Summer.Cell Summer.Cell :=
+  { init := (0, 0), step := Summer.addC,
+    enc := fun c => pairN (encInt c.1) c.2,
+    dec := fun m => (decInt (unpair m).1, (unpair m).2),
+    dec_enc := by intro c; simp only [unpair_pairN, decInt_encInt] }
+
+/-- a maxer / miner slot `{version, value}`; a contribution is `(the counter's _version, sample)` and
+acts by `Cmp.put` (the body of `operator<<`) -/
+def cmpKind (isMax : Bool) : Kind Cmp.Slot (Nat × Int) :=
+  { init := (Cmp.cfg isMax).dflt, step := fun sl c => Cmp.put isMax c.1 c.2 sl,
+    enc := fun sl => pairN (encInt sl.2) sl.1,
+    dec := fun m => ((unpair m).2, decInt (unpair m).1),
+    dec_enc := by intro sl; simp only [unpair_pairN, decInt_encInt] }
+
+def maxerKind : Kind Cmp.Slot (Nat × Int) := cmpKind true
+def minerKind : Kind Cmp.Slot (Nat × Int) := cmpKind false
+
+/-! ### the whole `value()`: the loads of slots `0 … n-1` -/
+
+/-- what the reader's loads of the first `n` slots returned, in slot order -/
+def loads (s : State α γ) (n : Nat) : List α := (List.range n).filterMap (fun x => (s.got x).map (·.1))
+
+theorem filterMap_eq_map {β δ : Type} (f : β → Option δ) (g : β → δ) (l : List β)
+    (h : ∀ x ∈ l, f x = some (g x)) : l.filterMap f = l.map g := by
+  induction l with
+  | nil => rfl
+  | cons a l ih =>
+    rw [List.filterMap_cons, h a List.mem_cons_self, List.map_cons,
+      ih (fun x hx => h x (List.mem_cons_of_mem _ hx))]
+
+/-- every slot's load is a prefix value: one choice function `k` for the whole read -/
+theorem loads_prefix (K : Kind α γ) (O : Ords) {s : State α γ} (hI : Inv K O s) (n : Nat)
+    (hall : ∀ x, x < n → (s.got x).isSome = true) :
+    ∃ k : Nat → Nat,
+      (∀ x, x < n → ∃ a hb, s.got x = some (a, hb) ∧ hb ≤ k x ∧ k x ≤ (s.contribs x).length) ∧
+      loads s n = (List.range n).map (fun x => K.pre (s.contribs x) (k x)) := by
+  have hex : ∀ x, ∃ k, ∀ a hb, s.got x = some (a, hb) →
+      hb ≤ k ∧ k ≤ (s.contribs x).length ∧ a = K.pre (s.contribs x) k := by
+    intro x
+    cases hg : s.got x with
+    | none => exact ⟨0, fun a hb h => by cases h⟩
+    | some p =>
+      obtain ⟨k, h1, h2, h3⟩ := hI.gotOk x p.1 p.2 hg
+      refine ⟨k, fun a hb h => ?_⟩
+      cases h
+      exact ⟨h1, h2, h3⟩
+  obtain ⟨k, hk⟩ := Classical.axiomOfChoice hex
+  refine ⟨k, ?_, ?_⟩
+  · intro x hx
+    cases hg : s.got x with
+    | none => have := hall x hx; rw [hg] at this; cases this
+    | some p =>
+      obtain ⟨h1, h2, _⟩ := hk x p.1 p.2 hg
+      exact ⟨p.1, p.2, rfl, h1, h2⟩
+  · unfold loads
+    apply filterMap_eq_map
+    intro x hx
+    have hx' := List.mem_range.mp hx
+    cases hg : s.got x with
+    | none => have := hall x hx'; rw [hg] at this; cases this
+    | some p =>
+      obtain ⟨_, _, h3⟩ := hk x p.1 p.2 hg
+      simp only [Option.map_some, h3]
 
 /-- one writer contributes 5 and hands off (flag value 1 = "one contribution completed"); the reader
 obtains the flag, then loads the cell -/
